@@ -1,1 +1,5 @@
 pub mod s1_chacha_stream;
+pub mod s2_chacha_block;
+pub mod hashes;
+pub mod s4_hash_stream;
+pub mod s3_hosts;
